@@ -1337,6 +1337,11 @@ func equal(a, b Object) (bool, error) {
 	if aIsDict && bIsDict {
 		return isSameDict(a.(Dict), b.(Dict)), nil
 	}
+	if ai, ok := a.(Integer); ok {
+		if bi, ok := b.(Integer); ok {
+			return ai == bi, nil
+		}
+	}
 
 	normalize := func(obj Object) (Object, error) {
 		switch obj := obj.(type) {
